@@ -58,7 +58,9 @@ trait Job: Send + Sync {
     fn name(&self) -> String;
     fn cost(&self) -> u64;
     fn n_inputs(&self) -> usize;
-    fn run(&self, thorough: bool, seed: u64, atk: &AtkOpts, only_input: Option<usize>, rep: &mut Report) -> (String, OpStats, AtkStats, u32);
+    /// circuit size (0 = synthesis with an unknown witness panics; the driver reports that)
+    fn min_k(&self) -> u32;
+    fn run(&self, thorough: bool, seed: u64, atk: &AtkOpts, k: u32, only_input: Option<usize>, rep: &mut Report) -> (String, OpStats, AtkStats, u32);
 }
 
 impl<V: Cv> Job for Task<V> {
@@ -71,7 +73,11 @@ impl<V: Cv> Job for Task<V> {
     fn n_inputs(&self) -> usize {
         self.inputs.len()
     }
-    fn run(&self, thorough: bool, seed: u64, atk: &AtkOpts, only_input: Option<usize>, rep: &mut Report) -> (String, OpStats, AtkStats, u32) {
+    fn min_k(&self) -> u32 {
+        let rel = mzv::engines::catalogue::OpRel(self.entry.clone());
+        catch_any(|| midnight_zk_stdlib::MidnightCircuit::new(&rel, midnight_proofs::circuit::Value::unknown(), midnight_proofs::circuit::Value::unknown(), Some(8)).min_k()).unwrap_or(0)
+    }
+    fn run(&self, thorough: bool, seed: u64, atk: &AtkOpts, k: u32, only_input: Option<usize>, rep: &mut Report) -> (String, OpStats, AtkStats, u32) {
         let name = self.entry.name();
         let mut opts = OpOptions::new("C06", thorough);
         opts.real_k_max = atk.real_k_max;
@@ -120,10 +126,10 @@ impl<V: Cv> Job for Task<V> {
             }
         }
         // 1. driver (every output edit re-evaluates the whole table: fewer positions on big circuits)
-        let rel = mzv::engines::catalogue::OpRel(self.entry.clone());
-        let k = catch_any(|| midnight_zk_stdlib::MidnightCircuit::new(&rel, midnight_proofs::circuit::Value::unknown(), midnight_proofs::circuit::Value::unknown(), Some(8)).min_k()).unwrap_or(0);
-        if k >= 14 {
-            opts.max_positions = if thorough { 4 } else { 2 };
+        if k >= 18 {
+            opts.max_positions = 1;
+        } else if k >= 14 {
+            opts.max_positions = 2;
         }
         let t_d = std::time::Instant::now();
         let st = check_op(&self.entry, &inputs, &opts, seed, rep);
@@ -132,7 +138,7 @@ impl<V: Cv> Job for Task<V> {
         }
         // 3. malicious prover
         let mut a = AtkStats::default();
-        if self.attack && k > 0 {
+        if self.attack && k > 0 && (k < 18 || thorough) {
             for (i, inp) in inputs.iter().enumerate() {
                 let idx = only_input.unwrap_or(0) + i;
                 a.add(&attack_stage::<V>(&self.entry, inp, idx, k, atk, seed, self.hints, rep));
@@ -352,7 +358,17 @@ fn catalogue<V: Cv>(thorough: bool, seed: u64) -> Vec<Task<V>> {
         let max_n = if thorough { 8 } else { 3 };
         for n in 2..=max_n {
             let mut ins: Vec<Vec<Val>> = vec![];
-            let reps = if thorough { if foreign { 3 } else { 10 } } else { 1 };
+            let reps = if thorough {
+                if !foreign {
+                    10
+                } else if n <= 3 {
+                    3
+                } else {
+                    1
+                }
+            } else {
+                1
+            };
             for rep_i in 0..reps + 2 {
                 let mut sc: Vec<Val> = vec![];
                 let mut ps: Vec<Val> = vec![];
@@ -379,7 +395,7 @@ fn catalogue<V: Cv>(thorough: bool, seed: u64) -> Vec<Task<V>> {
                 }
                 ins.push([sc, ps].concat());
             }
-            push(Op::Msm(n), &format!("msm[{n}]"), ins, mul_cost * n as u64, thorough || n <= 2, false);
+            push(Op::Msm(n), &format!("msm[{n}]"), ins, mul_cost * n as u64, (thorough && !foreign) || n <= 2, false);
         }
         // bounded scalars
         let nb = V::scalar_bits();
@@ -638,15 +654,30 @@ fn main() {
         }
     }
     units.sort_by_key(|u| (std::cmp::Reverse(u.2), u.0, u.1));
-    let parts: Vec<(Report, (String, OpStats, AtkStats, u32), f64)> = units
-        .par_iter()
-        .map(|(ji, i, _)| {
-            let mut part = rep.fork();
-            let t0 = thread_cpu();
-            let r = jobs[*ji].run(thorough, seed, &atk, Some(*i), &mut part);
-            (part, r, thread_cpu() - t0)
-        })
-        .collect();
+    // circuit sizes first: the largest circuits (k >= 18: gigabytes per MockProver) run in a
+    // second phase on a small pool so that memory stays bounded
+    let ks: Vec<u32> = jobs.par_iter().map(|j| j.min_k()).collect();
+    let run_units = |us: &[(usize, usize, u64)]| -> Vec<(Report, (String, OpStats, AtkStats, u32), f64)> {
+        us.par_iter()
+            .map(|(ji, i, _)| {
+                let mut part = rep.fork();
+                let t0 = thread_cpu();
+                let r = jobs[*ji].run(thorough, seed, &atk, ks[*ji], Some(*i), &mut part);
+                (part, r, thread_cpu() - t0)
+            })
+            .collect()
+    };
+    if ctx.extra.contains_key("list") {
+        for (j, k) in jobs.iter().zip(&ks) {
+            println!("{:60} k={:2} inputs={}", j.name(), k, j.n_inputs());
+        }
+        std::process::exit(0);
+    }
+    let (huge, normal): (Vec<_>, Vec<_>) = units.iter().cloned().partition(|u| ks[u.0] >= 18);
+    let mut parts = run_units(&normal);
+    if !huge.is_empty() {
+        parts.extend(with_pool(4, || run_units(&huge)));
+    }
     let mut per_op: BTreeMap<String, serde_json::Value> = BTreeMap::new();
     let mut per_curve: BTreeMap<String, (u64, u64, u64, u64)> = BTreeMap::new();
     let mut total_atk = AtkStats::default();
